@@ -49,7 +49,12 @@ func init() {
 			// each entry's header is written by the callback invocation that made it: a header kept for later (directories
 			// held back until something below them is packed) is lost when nothing comes to release it
 			ruleFreshHeaderPerEntry("C02.ownheader"),
-			aliasRuleFiltered(ruleC01Walk, "C01.walk", "C02.walked", 1, func(o Oblig) bool { return strings.Contains(o.Key, "walked path") })},
+			aliasRuleFiltered(ruleC01Walk, "C01.walk", "C02.walked", 1, func(o Oblig) bool { return strings.Contains(o.Key, "walked path") }),
+			// the name test refuses what climbs out of the destination and nothing else: a test on the first bytes
+			// instead of the first segment refuses the names ..data and ..2024 that Pack writes
+			aliasRuleFiltered(ruleC01Guards, "C01.guards", "C02.nametest", 1, func(o Oblig) bool {
+				return strings.Contains(o.Key, "containment") || strings.Contains(o.Key, "success return")
+			})},
 		NotDecided: []string{
 			"round-trip equality itself: tar rounding of mtimes, PAX name handling, Perm() arithmetic, content bytes",
 			"link-target equivalence under filepath.ToSlash",
